@@ -33,6 +33,7 @@ Starts ==
   CASE StartSet = "small" -> {Null, u1, sab, Arr(<<>>), Obj(<<>>), Arr(<<u1, sab>>), Obj(<< <<ka, Null>>, <<kb, u256>> >>),
                               Arr(<<Arr(<<u1>>), Obj(<< <<ka, u1>> >>), Null>>)}
     [] StartSet = "tiny" -> {Null, Arr(<<u1, sab>>), Obj(<< <<ka, Null>>, <<kb, u256>> >>)}
+    [] StartSet = "text2" -> {Arr(<<f1, sab>>), Obj(<< <<ka, Null>>, <<kb, u256>> >>), Obj(<< <<ka, u1>> >>)}
     [] OTHER -> RepL1 \cup AtomsSmall
                 \cup {Arr(<<u256, Null, f15>>), Arr(<<Arr(<<u1, sab>>), Obj(<< <<ka, Null>> >>)>>), Arr(<<sa, sab, sa>>),
                       Obj(<< <<kB, u1>>, <<ka, Arr(<<sE, f15>>)>> >>), Obj(<< <<kE, Obj(<< <<kab, Null>>, <<kb, sQuote>> >>)>> >>),
@@ -143,7 +144,9 @@ Begin ==
   /\ UNCHANGED <<buf, hist, w, rep>>
 DoStep ==
   /\ start # <<>> /\ Len(hist) < ChainLen
-  /\ \E k1 \in (IF Walkers = 0 THEN StepsFrom(reg, rep) ELSE {Candidate(reg, rep)}) :
+  \* (StartSet "text2": exhaustive two-step chains whose first step renders a register to text)
+  /\ \E k1 \in (IF Walkers = 0 THEN (IF StartSet = "text2" /\ hist = <<>> THEN {s \in StepsFrom(reg, rep) : s.f \in {"to_string", "to_pretty_string"}} ELSE StepsFrom(reg, rep))
+                 ELSE {Candidate(reg, rep)}) :
      \E k2 \in (IF Walkers = 0 THEN {k1} ELSE {Candidate(reg, rep)}) :
      \E k3 \in (IF Walkers = 0 THEN {k1} ELSE {Candidate(reg, rep)}) :
        LET s == IF Walkers = 0 THEN k1 ELSE PickSmall(k1, k2, k3, reg)
